@@ -45,4 +45,12 @@ PROPS = {
                     "XML round trip and engine run of the built definitions are checked on the implementation only (C15/C01 carry the models)"],
         "assumes": ["supplied preset ids are pairwise distinct and distinct from generated ones"],
     },
+    "C16": {
+        "cmd": "c16",
+        "corr": ["Corr.C16corr"],
+        "trusted": ["JSON text codecs (sonic) are abstracted to the tree they denote: decode(encode t) = t with every number read back as float64 (integers rounded to nearest-even 53 bits, modelled by r64)",
+                    "strings are identifiers except the texts the code inspects (true/false/decimal numbers); float64 values are identified by their bits",
+                    "declared float with a float dynamic value is formatted with %f by the code (lossy beyond 6 decimals); the model and the generator cover only floats that survive it (recorded in DESIGN.md, not claimed)"],
+        "assumes": ["unsigned values are within the signed 64-bit range (the property's own range)"],
+    },
 }
